@@ -2,8 +2,17 @@
 
 Domain : (1) every .co file shipped in the repository (library, examples, docs, test configs), Colang 1.0 and 2.x;
          (2) generated Colang 2.x programs (vf/co2.py: nested if/while/when, groups, break/continue at every depth,
-             start/await/activate of flows and actions); (3) generated Colang 1.0 programs (vf/co1.py), and Colang 1.0 texts with label/checkpoint, goto, when/else when,
-             break/continue nested in if/while/when blocks.
+             start/await/activate of flows and actions);
+         (3) generated Colang 1.0 programs (vf/co1.py), and Colang 1.0 texts with label/checkpoint, goto, when/else when chains of
+             1-4 branches, break/continue nested in if/while/when blocks, and return / return $v / stop / abort as the last
+             statement of any block (every when branch independently: as drawn / exit appended / exit alone; a third of the
+             flows end with a when chain, at top level or at the end of a trailing if / else block); `define flow` and `define subflow`;
+         (4) generated Colang 2.x loop programs (own JSON AST): while loops nested up to 3 deep whose bodies are, per loop, either
+             'bare' (only statements the expansion leaves untouched: match <event>, assignments, send <event>, log, print, match
+             $ref.Finished() - plus if/elif/else chains and loops) or 'mixed' (also await/start/activate/groups/when/pass);
+             if / elif / else chains of 1-3 conditions; a third of the branches inside a loop consist of `break` / `continue` alone;
+         (5) two enumerated families: Colang 1.0 when chains (2-3 branches x ending of every branch x 9 surroundings) and
+             Colang 2.x loop exits (13 neighbour sets x 5 chain forms x 5 branch-ending patterns x 6 placements).
 Oracle : static closure predicate over the compiled elements.
          2.x, after initialize_state: every element is a primitive the interpreter's `slide` executes (SpecOp send/match/
          _new_action_instance with a Spec - not a group dict - as spec; Label, Goto, ForkHead, MergeHeads, WaitForHeads,
@@ -26,15 +35,33 @@ LEVEL = "exploration"
 CASE_TIMEOUT = 60
 RULE = (
     "enumerated: every *.co under the repository (version from the nearest config.yml / file name / library location; 2.x files are "
-    "compiled together with the standard library and their sibling files); generated: co2 programs (depth<=3 nesting of if/while/when, "
-    "groups, break/continue, flows with parameters) and co1 programs when the module is present. Non-trivial = a flow whose source nests "
-    "composite constructs >= 2 deep, or uses break/continue, or a group; for files: a file whose flows compile to >= 1 jump/fork. "
-    "Distinct by program text / file path."
+    "compiled together with the standard library and their sibling files); family when-exit: Colang 1.0 when / else when chains of 2-3 "
+    "branches x each branch ending with nothing / return / return $v / stop x exit with or without statements in front x 9 surroundings "
+    "(last statement group of the flow, followed by 1 or 3 statements, end of a while body with / without statements behind the loop, end of "
+    "an if block with / without else, end of an else block, end of a branch of an outer when); family loop-exit: one Colang 2.x while loop "
+    "whose body is <neighbour statements> + <if / elif / else chain>: 13 neighbour sets (none, match, assignment, send, log, match $ref, "
+    "await action / flow, start, match group, send group, when) x 5 chain forms (if .. if-elif-elif-else) x 5 branch endings (all break, all "
+    "continue, alternating, first branch with a statement in front of the break, only the last branch exits) x 6 placements (alone, chain "
+    "followed by a statement, inner loop of a loop without / with other statements, outer loop around another loop, chain nested in an if). "
+    "generated: co2 programs (depth<=3 nesting of if/while/when, groups, break/continue, flows with parameters); co1 programs when the "
+    "module is present; Colang 1.0 texts (label/checkpoint, goto, if/else, while with break/continue, when chains of 1-4 branches, return / "
+    "return $v / stop / abort closing any block, every when branch independently as drawn / exit appended / exit alone, a third of the flows "
+    "ending with a when chain, flow or subflow); Colang 2.x loop programs (1-3 top-level loops nested up to 3 deep, each loop drawn 'bare' - "
+    "only statements that need no expansion plus if chains and loops - or 'mixed' with await/start/activate/groups/when/pass; if/elif/else "
+    "chains of 1-3 conditions; a third of the branches inside a loop are `break` / `continue` alone; exits also at the end of longer branches "
+    "and in when branches). Shares are visible in the labels (when-late-exit@flow-end / @followed / @block-end, bare|mixed+only-exit-branch"
+    "@single|inner|outer, loop-nestN, elif-in-loop, exit-in-when). Non-trivial = a flow whose source nests composite constructs >= 2 deep, or "
+    "uses break/continue, or a group; v1 texts: >= 3 jump offsets; loop programs: every loop has an exit or loops are nested; for files: a file "
+    "whose flows compile to >= 1 jump/fork. Distinct by program text / file path."
 )
 ASSUMPTIONS = [
     "scope closure is checked per scope name (every Begin is followed by an End, no End before its Begin), not per control-flow path",
     "duplicate labels are not forbidden by the statement and are not reported",
     "a shipped 2.x file that references flows defined outside the standard library and its own directory is counted as skipped",
+    "closure only: a jump / loop exit that lands inside the flow but at another position than the source means (e.g. a when-branch jump "
+    "that skips the statement behind the chain, an inner `break` carrying the outer loop's label) is not reported - the statement promises "
+    "that every target exists inside the same flow, not which one it is; a Break / Continue left with label None is an unresolved loop exit",
+    "break / continue are generated only inside while loops; nothing is generated behind an exit statement in the same block",
 ]
 WALL = {"quick": 150, "thorough": 1500}
 EXHAUSTIVE = False
@@ -43,7 +70,7 @@ _lib = {}
 
 
 def budget(tier):
-    return 2000 if tier == "quick" else 30000
+    return 3000 if tier == "quick" else 45000
 
 
 # ---------------------------------------------------------------------------------------------
@@ -84,14 +111,41 @@ def _version_of(rel):
 def enumerate_cases(tier):
     for rel in _co_files():
         yield {"leg": "file", "path": rel}
+    yield from _v1_when_family()
+    yield from _v2_loops_family()
+
+
+_V1_EXITS = ["return", "return", "return $v0", "stop", "abort"]  # statements that leave the flow
+_V1_TERMINATORS = ("return", "stop", "abort", "break", "continue")
+
+
+def _v1_first_word(line):
+    return line.strip().split(" ")[0]
+
+
+@st.composite
+def _v1_when(draw, depth, labels, in_loop):
+    """A when / else when chain of 1-4 branches; every branch independently keeps its drawn block, or gets a flow exit
+    (return / return $v / stop / abort) appended, or consists of the exit alone."""
+    lines = []
+    n = draw(st.integers(1, 4))
+    for i in range(n):
+        lines.append(("when" if i == 0 else "else when") + f" user intent w{draw(st.integers(0, 9))}{i}")
+        tail = draw(st.sampled_from(["keep", "keep", "keep", "exit", "exit", "only-exit"]))
+        blk = [] if tail == "only-exit" else draw(_v1_block(depth - 1, labels, in_loop))
+        if tail != "keep" and not (blk and blk[-1] == blk[-1].lstrip() and _v1_first_word(blk[-1]) in _V1_TERMINATORS):
+            blk.append(draw(st.sampled_from(_V1_EXITS)))
+        lines += ["  " + x for x in blk]
+    return lines
 
 
 @st.composite
 def _v1_block(draw, depth, labels, in_loop):
-    """Colang 1.0 statements incl. the constructs vf/co1 does not model: label/checkpoint, goto, when/else when, break/continue."""
+    """Colang 1.0 statements incl. the constructs vf/co1 does not model: label/checkpoint, goto, when/else when, break/continue,
+    return / stop / abort as the last statement of a block."""
     lines = []
     for _ in range(draw(st.integers(1, 4))):
-        kinds = ["bot", "bot", "set", "label"]
+        kinds = ["bot", "bot", "set", "label", "exit"]
         if depth > 0:
             kinds += ["if", "while", "when"]
         if in_loop:
@@ -115,10 +169,10 @@ def _v1_block(draw, depth, labels, in_loop):
             lines.append(f"while $v{draw(st.integers(0, 1))} < {draw(st.integers(1, 3))}")
             lines += ["  " + x for x in draw(_v1_block(depth - 1, labels, True))]
         elif k == "when":
-            n = draw(st.integers(1, 3))
-            for i in range(n):
-                lines.append(("when" if i == 0 else "else when") + f" user intent w{draw(st.integers(0, 9))}{i}")
-                lines += ["  " + x for x in draw(_v1_block(depth - 1, labels, in_loop))]
+            lines += draw(_v1_when(depth, labels, in_loop))
+        elif k == "exit":
+            lines.append(draw(st.sampled_from(_V1_EXITS)))
+            break
         else:
             lines.append(k)
             break
@@ -130,7 +184,19 @@ def _v1_offsets_case(draw):
     flows = []
     for fi in range(draw(st.integers(1, 2))):
         labels = []
-        body = draw(_v1_block(draw(st.integers(1, 3)), labels, False))
+        depth = draw(st.integers(1, 3))
+        body = draw(_v1_block(depth, labels, False))
+        if draw(st.integers(0, 2)) == 0:
+            # the flow ends with a when / else when chain (at top level, or as the last statement of a trailing if / else block)
+            if body and body[-1] == body[-1].lstrip() and _v1_first_word(body[-1]) in _V1_TERMINATORS:
+                body.pop()
+            chain = draw(_v1_when(depth, labels, False))
+            wrap = draw(st.sampled_from(["top", "top", "if", "else"]))
+            if wrap == "if":
+                chain = ["if $v0 == 1"] + ["  " + x for x in chain]
+            elif wrap == "else":
+                chain = ["if $v0 == 1", "  bot say b0", "else"] + ["  " + x for x in chain]
+            body += chain
         # gotos only to labels that exist in this flow
         for _ in range(draw(st.integers(0, 2)) if labels else 0):
             pos = draw(st.integers(0, len(body)))
@@ -138,22 +204,307 @@ def _v1_offsets_case(draw):
             if pos > 0 and body[pos - 1].lstrip().split(" ")[0] in ("if", "while", "when", "else"):
                 ind += 2
             body.insert(pos, " " * ind + "goto " + draw(st.sampled_from(labels)))
-        flows.append([f"define flow gen{fi}", f"  user intent start{fi}"] + ["  " + x for x in body])
+        head = draw(st.sampled_from(["define flow", "define flow", "define subflow"]))
+        flows.append([f"{head} gen{fi}", f"  user intent start{fi}"] + ["  " + x for x in body])
     text = "\n".join("\n".join(f) for f in flows) + "\n"
     return {"leg": "v1text", "text": text}
 
 
+def _v1_when_family():
+    """Enumerated: when / else when chains of 2-3 branches x what each branch ends with (nothing / return / return $v / stop) x
+    branch with or without statements in front of the exit x where the chain stands (last statement group of the flow, followed
+    by further statements, end of a while body, end of an if block with / without else, end of an else block, end of a branch
+    of an outer when)."""
+    import itertools
+
+    tails = [None, "return", "return $v0", "stop"]
+    for n in (2, 3):
+        for combo in itertools.product(tails, repeat=n):
+            if not any(combo):
+                continue
+            for with_body in (True, False):
+                chain = []
+                for i, t in enumerate(combo):
+                    chain.append(("when" if i == 0 else "else when") + f" user intent w{i}")
+                    if with_body or t is None:
+                        chain.append(f"  bot say b{i}")
+                    if t:
+                        chain.append("  " + t)
+                ind = lambda ls: ["  " + x for x in ls]  # noqa: E731
+                contexts = {
+                    "flow-end": chain,
+                    "followed": chain + ["bot say after"],
+                    "followed2": chain + ["bot say after", "$v1 = 2", "bot say more"],
+                    "while-end": ["while $v0 < 2"] + ind(["bot say again"] + chain),
+                    "while-end-followed": ["while $v0 < 2"] + ind(["bot say again"] + chain) + ["bot say after"],
+                    "if-end": ["if $v0 == 1"] + ind(chain),
+                    "if-end-else": ["if $v0 == 1"] + ind(chain) + ["else", "  bot say other"],
+                    "else-end": ["if $v0 == 1", "  bot say other", "else"] + ind(chain),
+                    "outer-when-end": ["when user intent o0"] + ind(chain) + ["else when user intent o1", "  bot say other"],
+                }
+                for cname, body in contexts.items():
+                    text = "define subflow fam\n  user intent start\n" + "\n".join("  " + x for x in body) + "\n"
+                    yield {"leg": "v1text", "text": text, "family": "when-exit/" + cname}
+
+
+# ---------------------------------------------------------------------------------------------
+# Colang 2.x loops: JSON AST  ["s", text, needs_expansion] | ["x", "break"|"continue"] | ["if", [[cond, block]..], else|None]
+#                             | ["while", cond, block] | ["when", [[spec, block]..], else|None]
+
+_V2L_PLAIN = [  # statements the expansion leaves as they are
+    "match Ev0()", "match Ev1()", "match Ev2(v=1)", "$x = $x + 1", "$y = 1", "$y = $y + 1", "send Out0()", "send Out1(v=$x)",
+    'log "t"', 'print "t"', "match $a0.Finished()", 'match UtteranceUserAction.Finished(final_transcript="hi")',
+]
+_V2L_EXP = [  # statements that are rewritten into primitives
+    'await UtteranceBotAction(script="x")', 'start UtteranceBotAction(script="y") as $a1', "await h0", "start h1 as $r0",
+    "match Ev0() or Ev1()", "match Ev2() and Ev3()", "send Out0() and Out1()", "send Out0() or Out1()", "await h0 or h1",
+    "start h0 and h1", "activate h1", "$z = await h0", "pass",
+]
+_V2L_CONDS = ["$x < 3", "$y == 1", "True", "$x > $y", "$y < 2"]
+_V2L_HEAD = 'flow h0\n  match Ev8()\n\nflow h1\n  match Ev9()\n\nflow main\n  $x = 0\n  $y = 0\n  start UtteranceBotAction(script="a") as $a0\n'
+
+
+def _v2l_render(stmts, ind, out):
+    p = "  " * ind
+    for s in stmts:
+        k = s[0]
+        if k == "s":
+            out.append(p + s[1])
+        elif k == "x":
+            out.append(p + s[1])
+        elif k == "if":
+            for i, (cond, blk) in enumerate(s[1]):
+                out.append(p + ("if " if i == 0 else "elif ") + cond)
+                _v2l_render(blk, ind + 1, out)
+            if s[2] is not None:
+                out.append(p + "else")
+                _v2l_render(s[2], ind + 1, out)
+        elif k == "while":
+            out.append(p + "while " + s[1])
+            _v2l_render(s[2], ind + 1, out)
+        elif k == "when":
+            for i, (spec, blk) in enumerate(s[1]):
+                out.append(p + ("when " if i == 0 else "or when ") + spec)
+                _v2l_render(blk, ind + 1, out)
+            if s[2] is not None:
+                out.append(p + "else")
+                _v2l_render(s[2], ind + 1, out)
+        else:
+            raise ValueError(k)
+    return out
+
+
+def _v2l_text(body):
+    return _V2L_HEAD + "\n".join(_v2l_render(body, 1, [])) + "\n  match Never()\n"
+
+
+def _v2l_blocks(s):
+    if s[0] in ("if", "when"):
+        return [b for _, b in s[1]] + ([s[2]] if s[2] is not None else [])
+    if s[0] == "while":
+        return [s[2]]
+    return []
+
+
+def _v2l_shape(body):
+    """Labels describing the loops of a v2loops program (share of each shape is visible in the evidence)."""
+    labels = set()
+
+    def scan(stmts, acc):
+        # everything that belongs to the innermost enclosing loop body: nested if / when blocks included, nested loops excluded
+        for s in stmts:
+            if s[0] == "s":
+                acc["exp" if s[2] else "plain"] += 1
+            elif s[0] == "x":
+                acc["exits"] += 1
+            elif s[0] == "while":
+                acc["loops"] += 1
+            elif s[0] == "when":
+                acc["when"] += 1
+                for b in _v2l_blocks(s):
+                    if b and b[-1][0] == "x":
+                        acc["when-exit"] += 1
+                    scan(b, acc)
+            elif s[0] == "if":
+                if len(s[1]) > 1:
+                    acc["elif"] += 1
+                for b in _v2l_blocks(s):
+                    if len(b) == 1 and b[0][0] == "x":
+                        acc["only-exit"] += 1
+                    elif b and b[-1][0] == "x":
+                        acc["guarded-exit"] += 1
+                    scan(b, acc)
+
+    def loops(stmts, nest):
+        for s in stmts:
+            if s[0] == "while":
+                acc = dict.fromkeys(["exp", "plain", "exits", "loops", "when", "when-exit", "elif", "only-exit", "guarded-exit"], 0)
+                scan(s[2], acc)
+                bare = acc["exp"] == 0 and acc["when"] == 0
+                where = "inner" if nest > 0 else "outer" if acc["loops"] else "single"
+                labels.add("loop-bare" if bare else "loop-mixed")
+                if acc["only-exit"]:
+                    labels.add("only-exit-branch")
+                    labels.add(("bare" if bare else "mixed") + "+only-exit-branch")
+                    labels.add(("bare" if bare else "mixed") + "+only-exit-branch@" + where)
+                if acc["guarded-exit"]:
+                    labels.add("guarded-exit-branch")
+                if acc["when-exit"]:
+                    labels.add("exit-in-when")
+                if acc["elif"]:
+                    labels.add("elif-in-loop")
+                if acc["exits"] == 0:
+                    labels.add("loop-without-exit")
+                labels.add(f"loop-nest{min(nest + 1, 3)}")
+                loops(s[2], nest + 1)
+            else:
+                for b in _v2l_blocks(s):
+                    loops(b, nest)
+
+    loops(body, 0)
+    return sorted(labels)
+
+
+@st.composite
+def _v2l_leaf(draw, bare):
+    if bare or draw(st.booleans()):
+        return ["s", draw(st.sampled_from(_V2L_PLAIN)), 0]
+    return ["s", draw(st.sampled_from(_V2L_EXP)), 1]
+
+
+@st.composite
+def _v2l_branch(draw, depth, in_loop, bare):
+    """Block of an if / elif / else / when branch: inside a loop a third of them consist of `break` / `continue` alone."""
+    if in_loop and draw(st.integers(0, 2)) == 0:
+        return [["x", draw(st.sampled_from(["break", "continue"]))]]
+    return draw(_v2l_block(depth, in_loop, bare, 1, 2))
+
+
+@st.composite
+def _v2l_while(draw, depth):
+    # one more dimension per loop: a 'bare' body holds only statements that need no expansion (plus if chains and loops)
+    bare = draw(st.booleans())
+    first = draw(st.sampled_from([0, 0, 1, 2]))  # 0: the body starts with a plain wait, 1: with an expanded one, 2: with anything
+    body = []
+    if first == 0 or (first == 1 and bare):
+        body.append(["s", draw(st.sampled_from(["match Ev0()", "match Ev1()", "match Ev2(v=1)"])), 0])
+    elif first == 1:
+        body.append(["s", draw(st.sampled_from(['await UtteranceBotAction(script="x")', "await h0", "match Ev0() or Ev1()"])), 1])
+    body += draw(_v2l_block(depth, True, bare, 1, 3))
+    return ["while", draw(st.sampled_from(_V2L_CONDS)), body]
+
+
+@st.composite
+def _v2l_block(draw, depth, in_loop, bare, min_n=1, max_n=3):
+    out = []
+    for _ in range(draw(st.integers(min_n, max_n))):
+        kinds = ["leaf", "leaf", "leaf"]
+        if depth > 0:
+            kinds += ["if", "if", "while"] + ([] if bare else ["when"])
+        if in_loop:
+            kinds += ["exit"]
+        k = draw(st.sampled_from(kinds))
+        if k == "leaf":
+            out.append(draw(_v2l_leaf(bare)))
+        elif k == "if":
+            conds = [[draw(st.sampled_from(_V2L_CONDS)), draw(_v2l_branch(depth - 1, in_loop, bare))] for _ in range(draw(st.sampled_from([1, 1, 2, 3])))]
+            els = None
+            if draw(st.booleans()):
+                els = draw(_v2l_branch(depth - 1, in_loop, bare))
+                if els[0][0] == "if":  # `else` + newline + `if` is lexed as `else if` by the 2.x grammar: never start an else block with `if`
+                    els = [["s", "$y = 0", 0]] + els
+            out.append(["if", conds, els])
+        elif k == "while":
+            out.append(draw(_v2l_while(depth - 1)))
+        elif k == "when":
+            specs = draw(st.lists(st.sampled_from(["Ev0()", "Ev1()", "Ev3(v=0)", "h0", "h1", 'UtteranceBotAction(script="w")']), min_size=1, max_size=3, unique=True))
+            cases = [[sp, draw(_v2l_branch(depth - 1, in_loop, bare))] for sp in specs]
+            els = None
+            if any(not sp.startswith("Ev") for sp in specs) and draw(st.booleans()):
+                els = draw(_v2l_branch(depth - 1, in_loop, bare))
+                if els[0][0] == "if":
+                    els = [["s", "$y = 0", 0]] + els
+            out.append(["when", cases, els])
+        else:
+            out.append(["x", draw(st.sampled_from(["break", "continue"]))])
+            break  # nothing after an exit in the same block
+    return out
+
+
+@st.composite
+def _v2_loops_case(draw):
+    depth = draw(st.integers(1, 3))
+    body = []
+    for _ in range(draw(st.integers(1, 3))):
+        if draw(st.integers(0, 2)) == 0:
+            body += draw(_v2l_block(depth, False, False, 1, 2))
+        else:
+            body.append(draw(_v2l_while(depth)))
+    if not any(s[0] == "while" for s in body):
+        body.append(draw(_v2l_while(depth)))
+    return {"leg": "v2loops", "body": body}
+
+
+def _v2_loops_family():
+    """Enumerated: one while loop whose body is  <neighbour statements> + <if / elif / else chain with break / continue>  for
+    every combination of neighbour set x chain form x how the branches end x where the loop stands (alone, inside another loop,
+    around another loop, chain nested in an outer if) x chain last in the body or followed by a statement."""
+    m, a = ["s", "match Ev0()", 0], ["s", "$x = $x + 1", 0]
+    neighbours = {
+        "none": [], "match": [m], "assign": [a], "match+assign": [m, a], "match+send": [m, ["s", "send Out0()", 0]],
+        "match+log": [m, ["s", 'log "t"', 0]], "match-ref": [["s", "match $a0.Finished()", 0]],
+        "await-action": [["s", 'await UtteranceBotAction(script="x")', 1]], "match+start": [m, ["s", 'start UtteranceBotAction(script="y") as $a1', 1]],
+        "await-flow": [["s", "await h0", 1]], "match-group": [["s", "match Ev0() or Ev1()", 1]], "match+send-group": [m, ["s", "send Out0() and Out1()", 1]],
+        "when": [["when", [["Ev0()", [a]], ["Ev1()", [["s", "$y = 1", 0]]]], None]],
+    }
+    forms = {"if": (1, False), "if-else": (1, True), "if-elif": (2, False), "if-elif-else": (2, True), "if-elif-elif-else": (3, True)}
+    g = ["s", "$y = 1", 0]
+
+    def fill(pattern, nb):
+        if pattern == "all-break":
+            return [[["x", "break"]] for _ in range(nb)]
+        if pattern == "all-continue":
+            return [[["x", "continue"]] for _ in range(nb)]
+        if pattern == "alternating":
+            return [[["x", "break" if i % 2 == 0 else "continue"]] for i in range(nb)]
+        if pattern == "first-guarded":
+            return [[g, ["x", "break"]]] + [[["x", "continue" if i % 2 == 0 else "break"]] for i in range(nb - 1)]
+        if pattern == "last-only-exit":
+            return [[g] for _ in range(nb - 1)] + [[["x", "break"]]]
+        raise ValueError(pattern)
+
+    for nname, nb_stmts in neighbours.items():
+        for fname, (nconds, has_else) in forms.items():
+            for pattern in ("all-break", "all-continue", "alternating", "first-guarded", "last-only-exit"):
+                blocks = fill(pattern, nconds + (1 if has_else else 0))
+                chain = ["if", [[_V2L_CONDS[i], blocks[i]] for i in range(nconds)], blocks[nconds] if has_else else None]
+                loop = ["while", "$x < 3", nb_stmts + [chain]]
+                places = {
+                    "single": [loop],
+                    "single-followed": [["while", "$x < 3", nb_stmts + [chain, g]]],
+                    "inner-of-bare": [["while", "$y < 2", [loop]]],
+                    "inner-of-waiting": [["while", "$y < 2", [m, loop, g]]],
+                    "outer": [["while", "$x < 3", [["while", "$y < 2", [["s", "match Ev1()", 0], ["s", "$y = $y + 1", 0]]]] + nb_stmts + [chain]]],
+                    "chain-in-if": [["while", "$x < 3", nb_stmts + [["if", [["$y == 0", [chain]]], None]]]],
+                }
+                for pname, body in places.items():
+                    yield {"leg": "v2loops", "body": body, "family": f"loop-exit/{nname}/{fname}/{pattern}/{pname}"}
+
+
 @st.composite
 def _case(draw):
-    if draw(st.integers(0, 3)) == 0:
+    leg = draw(st.integers(0, 11))
+    if leg < 3:
         return draw(_v1_offsets_case())
+    if leg < 6:
+        return draw(_v2_loops_case())
     try:
         from vf import co1  # noqa: F401
 
         have_co1 = hasattr(co1, "programs")
     except Exception:
         have_co1 = False
-    if have_co1 and draw(st.integers(0, 2)) == 0:
+    if have_co1 and leg < 8:
         from vf import co1
 
         return {"leg": "v1gen", "prog": draw(co1.programs())}
@@ -365,6 +716,38 @@ def _file_case(case):
     return ok(nt=jumps > 0, labels=["file", "v2", "has-jumps" if jumps else "no-jumps"], view={"file": rel, "version": "2.x", "flows": len(own), "jumps_and_forks": jumps}, key=rel)
 
 
+def _v1_when_shape(text):
+    """Labels for the when / else when chains of a Colang 1.0 text: number of branches, which branches end by leaving the flow
+    (return / stop / abort as their last line), and whether the chain is the last statement group of its flow."""
+    labels = set()
+    flows, cur = [], None
+    for ln in text.split("\n"):
+        if ln.startswith("define "):
+            cur = []
+            flows.append(cur)
+        elif ln.strip() and cur is not None:
+            cur.append((len(ln) - len(ln.lstrip()), ln.strip()))
+    for lines in flows:
+        for i, (ind, txt) in enumerate(lines):
+            if not txt.startswith("when "):
+                continue
+            heads, j = [i], i + 1
+            while j < len(lines) and (lines[j][0] > ind or (lines[j][0] == ind and lines[j][1].startswith("else when "))):
+                if lines[j][0] == ind:
+                    heads.append(j)
+                j += 1
+            ends = [h - 1 for h in heads[1:]] + [j - 1]
+            exits = [lines[e][1].split(" ")[0] in ("return", "stop", "abort") and e not in heads for e in ends]
+            labels.add(f"when-branches{min(len(heads), 4)}")
+            if any(exits):
+                labels.add("when-branch-exits")
+            if any(x and not all(exits[:k]) for k, x in enumerate(exits) if k > 0):
+                # a later branch leaves the flow while an earlier one runs on behind the chain
+                labels.add("when-late-exit")
+                labels.add("when-late-exit@" + ("flow-end" if j == len(lines) else "followed" if lines[j][0] == ind else "block-end"))
+    return sorted(labels)
+
+
 def prop(case):
     if case["leg"] == "file":
         return _file_case(case)
@@ -382,8 +765,27 @@ def prop(case):
             total += jumps
             if bad:
                 raise Violation("v1-" + bad[0][0], f"flow {fl.get('id')!r}: {bad[0][1]}\n{text}")
-        labels = ["v1text"] + [k for k in ("label", "checkpoint", "goto", "when", "while", "break", "continue") if k + " " in text or text.rstrip().endswith(k) or ("\n" + k) in text.replace(" ", "")]
+        labels = ["v1text"] + [k for k in ("label", "checkpoint", "goto", "when", "while", "break", "continue", "return", "stop", "abort", "subflow") if k + " " in text or text.rstrip().endswith(k) or ("\n" + k) in text.replace(" ", "")]
+        labels += _v1_when_shape(text)
+        if case.get("family"):
+            labels.append("family:" + case["family"].split("/")[0])
+            labels.append("family:" + case["family"])
         return ok(nt=total >= 3, labels=labels, view={"program": text, "jump_offsets": total})
+    if case["leg"] == "v2loops":
+        text = _v2l_text(case["body"])
+        try:
+            configs = _compile_v2(smh.parse(text))
+        except Exception as e:
+            raise Violation("v2-compile-error:" + type(e).__name__, f"{e!r}"[:300] + "\n" + text)
+        for name, cfg in configs.items():
+            bad, _ = check_v2_flow(cfg)
+            if bad:
+                raise Violation("v2-" + bad[0][0], f"flow {name!r}: {bad[0][1]}\n{text}")
+        labels = ["v2loops"] + _v2l_shape(case["body"])
+        if case.get("family"):
+            parts = case["family"].split("/")
+            labels += ["family:" + parts[0], "family:" + parts[0] + "/neighbours=" + parts[1], "family:" + parts[0] + "/place=" + parts[4]]
+        return ok(nt="loop-without-exit" not in labels or len([x for x in labels if x.startswith("loop-nest")]) > 1, labels=labels, view={"program": text})
     if case["leg"] == "v1gen":
         from nemoguardrails.colang import parse_colang_file
 
